@@ -294,7 +294,8 @@ def run_scenario(sc):
                 elif op["style"] == "explicit":
                     real.yp.register_function(op["name"], f, arity=op["arity"])
                 else:
-                    real.yp.register_function(op["name"], f, arity=-1)
+                    # any negative arity means variable arity (documented); the history step number picks one
+                    real.yp.register_function(op["name"], f, arity=(-1, -2, -7)[step % 3])
             except Exception as e:
                 fails.append("step %d register raised %s: %s" % (step, type(e).__name__, e))
             if op["name"] in RESERVED:
@@ -321,6 +322,11 @@ def run_scenario(sc):
                 if nonempty:
                     feats.add("badload")
             else:
+                if step % 3 == 1 and "\ndef " in code:
+                    # a script may hold other module-level names than predicates (a revision number, a constant table): they are
+                    # not predicates and do not disturb the load
+                    i = code.rfind("\ndef ")
+                    code = code[:i] + "\nREVISION = 2\nTABLE = {'a': 1}\n" + code[i:] + "\nLAST_NAME = 'x'\n"
                 try:
                     real.yp.load_script_from_string(code, overwrite=op["overwrite"])
                 except Exception as e:
